@@ -52,20 +52,25 @@ def matchVal (tt : List (Nat × Rat × Rat)) (impl : Option Rat) (v : Val) : Opt
     | some p => some (closeR x p)
     | none => none
 
+/-- exact when small; otherwise rounded down to a multiple of 2^-256 (the exact value is what the
+    spec clauses use; this is only what is printed for the harness's float comparison) -/
+def shortRat (q : Rat) : Rat :=
+  if q.den < 2 ^ 256 then q else ((q * (2 ^ 256 : Nat)).floor : Rat) / ((2 ^ 256 : Nat) : Rat)
+
 def valJ (tt : List (Nat × Rat × Rat)) : Val → Json
   | .nan => obj [("k", strJ "nan")]
-  | .num q => obj [("k", strJ "num"), ("v", ratJ q)]
-  | .sqrtOf q => obj [("k", strJ "sqrt"), ("v", ratJ q)]
-  | .tTail df tsq => obj [("k", strJ "t"), ("df", natJ df), ("tsq", ratJ tsq), ("p", optRatJ (ttLookup tt df tsq))]
+  | .num q => obj [("k", strJ "num"), ("v", ratJ (shortRat q))]
+  | .sqrtOf q => obj [("k", strJ "sqrt"), ("v", ratJ (shortRat q))]
+  | .tTail df tsq => obj [("k", strJ "t"), ("df", natJ df), ("tsq", ratJ (shortRat tsq)), ("p", optRatJ (ttLookup tt df tsq))]
 
 def statOutJ (tt : List (Nat × Rat × Rat)) (s : StatOut) : Json :=
   obj [("val", valJ tt s.val),
        ("alt", match s.alt with | some a => valJ tt a | none => Json.null),
-       ("slack", ratJ s.slack)]
+       ("slack", ratJ (shortRat s.slack))]
 
 def pairJ : Option (Rat × Rat) → Json
   | none => Json.null
-  | some p => arrJ [ratJ p.1, ratJ p.2]
+  | some p => arrJ [ratJ (shortRat p.1), ratJ (shortRat p.2)]
 
 /-- bins are `[chrom, start, end, gene, log2, weight, depth|null]`; the label is the position -/
 def getBins (j : Json) : R (List Bin) := do
@@ -278,7 +283,7 @@ def handleStats (op : String) (inp : Json) (impl : Option Json) : R (Option Json
           | some sg => if targetOnly && Generated.ANTITARGET_ALIASES.contains b.gene then none else some (b, b.log2 - sg.log2)
           | none => none)
         let praw := tested.map (fun r => pRaw tail r.2 r.1.weight)
-        let qs := bhClosed praw
+        let qs := bhClosedFast praw
         let tq := tested.zip qs
         for (lab, lg, p) in ih do
           match tq.find? (fun e => labelOf e.1.1 == lab) with
@@ -306,7 +311,7 @@ def handleStats (op : String) (inp : Json) (impl : Option Json) : R (Option Json
         let q ← getList getRat ij
         if q.length != p.length then pure (sClausesJ ["bh_length"]) else
         let z := p.zip q
-        let closed := bhClosed p
+        let closed := bhClosedFast p
         let mut bad : List String := []
         if !(z.all (fun (pi, qi) => pi ≤ qi + tolS && qi ≤ 1 + tolS)) then bad := "bh_bounds" :: bad
         if !(z.all (fun (pi, qi) => z.all (fun (pj, qj) => !(pi ≤ pj) || qi ≤ qj + tolS))) then bad := "bh_monotone" :: bad
